@@ -15,7 +15,7 @@ import scen
 PROP = "C13"
 POOL = ["ed1", "ed2", "ed3", "ed4", "ed5", "ed6", "edp1", "edp2", "ec-b", "ec-c"]
 KINDS = ["summary_only", "disallow", "match_next", "agreeing_surplus", "two_failing_steps", "delegated_surplus",
-         "require", "summary_first_step"]
+         "require", "summary_first_step", "multi_party_nested_dissent", "multi_party_digest_dissent"]
 
 
 def outcome_key(run, last):
@@ -118,6 +118,26 @@ def build(rng, W, kind):
         steps = [scen.mk_step("build", thr, [W.kid(k) for k in keys], [], [["ALLOW", "*"]], [["ALLOW", "*"]])]
         for t, k in enumerate(keys):
             add("build", k, variant_link("build", 0, 0))
+    elif kind in ("multi_party_nested_dissent", "multi_party_digest_dissent"):
+        # threshold >= 2 and one link whose artifacts are a strict sub-/superset of (or differ in a digest from) the others':
+        # whatever the verdict is, it must not depend on which link the implementation happens to compare against
+        thr = rng.choice([2, 2, 3]) if n >= 3 else 2
+        steps = [scen.mk_step("build", min(thr, n), [W.kid(k) for k in keys], [], [["ALLOW", "*"]], [["ALLOW", "*"]])]
+        odd = rng.randrange(n)
+        where = rng.choice(["materials", "products"])
+        how = rng.choice(["extra", "missing"]) if kind == "multi_party_nested_dissent" else "digest"
+        for t, k in enumerate(keys):
+            d = variant_link("build", 0, 0)
+            d["products"]["out/second"] = scen.digest(0x31)
+            d["materials"]["src/second"] = scen.digest(0x32)
+            if t == odd:
+                if how == "extra":
+                    d[where]["only/here"] = scen.digest(0x33)
+                elif how == "missing":
+                    del d[where][sorted(d[where])[-1]]
+                else:
+                    d[where][sorted(d[where])[0]] = scen.digest(0x34)
+            add("build", k, d)
     elif kind == "two_failing_steps":
         steps = [scen.mk_step("build", 1, [W.kid(keys[0])], [], [], [["DISALLOW", "*"]]),
                  scen.mk_step("package", 1, [W.kid(keys[1])], [], [["DISALLOW", "*"]], [])]
@@ -202,5 +222,6 @@ def main(ctx):
              "non-trivial = the surplus links differ; distinct by (layout, directory); evaluations = verifications",
         assumptions=["fresh HashMap instances get fresh SipHash keys (std RandomState), fresh processes fresh base keys"],
         required=["kind:summary_only", "kind:disallow", "kind:match_next", "kind:delegated_surplus", "kind:require",
+                  "kind:multi_party_nested_dissent",
                   "iteration_order_varied", "accept_seen"],
         min_evals=2000)
